@@ -49,9 +49,12 @@ def getCollectionValue(collection, what):
     elif collection.isObject():
         return collection.keys()
     elif collection.isString():
-        return [ch for ch in collection.value]
+        return [ValueString(ch) for ch in collection.value]
     else:
-        return None
+        raise CklRuntimeError(
+            ValueString("ERROR"),
+            f"Cannot iterate over {collection.type()}",
+        )
 
 
 def getFuncallString(fn, args):
